@@ -136,3 +136,36 @@ Proof.
   assert (W0 : wf_log s) by (unfold wf_log; rewrite T; repeat split; constructor).
   destruct (W W0) as (W1 & W2 & _). repeat split; assumption.
 Qed.
+
+(* ---- C03: where a relative branch goes ---- *)
+Theorem rel_branch_refines_isa c i sm s :
+  is_cf_mnemonic (i_mnemonic i) = true -> pre i s ->
+  code_sem (i_code i) = Some sm -> is_rel (Some sm) = true -> i_code i <> C_Jmp_rel8_16 ->
+  0 <= i_near_branch64 i < 2 ^ 64 ->
+  exists r s', switch_instruction_mnemonic c i s = (r, s') /\
+    (r = Ok tt -> forall s1 u, isa_exec sm i s = IDone s1 u -> regs s' RIP = regs s1 RIP) /\
+    (r = Ok tt -> taken (Some sm) s = false -> s' = s).
+Proof.
+  intros Hm Hpre Hsm Hrel Hcode Hnb.
+  destruct (dispatch_cf c i Hm s Hpre) as (r & s' & E & H). cbv zeta in H. rewrite Hsm in H.
+  exists r, s'. split; [exact E|].
+  assert (Hrt : rel_target_of (Some sm) i = Some (i_near_branch64 i)).
+  { unfold rel_target_of. rewrite Hrel. cbn [andb].
+    destruct (code_eqb (i_code i) C_Jmp_rel8_16) eqn:Ce.
+    - exfalso. apply Hcode. destruct (i_code i); try discriminate Ce. reflexivity.
+    - cbn [negb]. unfold rel_target. rewrite cast_u64_i64_u64 by exact Hnb. reflexivity. }
+  rewrite Hrt in H.
+  split.
+  - intros Hr s1 u Hisa. destruct (taken (Some sm) s) eqn:T.
+    + destruct H as [(_ & _ & Hrip)|(Hn & _)]; [|contradiction]. rewrite Hrip.
+      destruct sm; try discriminate Hrel; cbn [isa_exec taken] in *.
+      * rewrite T in Hisa. unfold branch_to in Hisa. destruct (canonical _); inversion Hisa; subst. cbn. reflexivity.
+      * unfold branch_to in Hisa. destruct (canonical _); inversion Hisa; subst. cbn. reflexivity.
+      * destruct (negb (canonical _)); [discriminate|]. destruct (push_val 8 (regs s RIP) s); inversion Hisa; subst. cbn. reflexivity.
+      * rewrite T in Hisa. unfold branch_to in Hisa. destruct (canonical _); inversion Hisa; subst. cbn. reflexivity.
+      * rewrite T in Hisa. unfold branch_to in Hisa. destruct (canonical _); inversion Hisa; subst. cbn. reflexivity.
+    + destruct H as [_ Hs]. rewrite (Hs Hr ltac:(discriminate)).
+      destruct sm; try discriminate Hrel; cbn [isa_exec taken] in *; try discriminate T;
+        rewrite T in Hisa; inversion Hisa; reflexivity.
+  - intros Hr T. rewrite T in H. destruct H as [_ Hs]. apply Hs; [exact Hr|discriminate].
+Qed.
